@@ -183,3 +183,27 @@ pub fn kind_sweep() -> (usize, Vec<AtomKind>, Vec<AtomKind>) {
         visit(AtomKind::Bracket { isotope: num(*iso), symbol: sym(*s), configuration: cfg(c), hcount: hc(h), charge: ch(q), map: num(*m) }) } } } } } }
     (total, bad, sample)
 }
+
+/// disjoint union of several graphs (component k keeps its internal order; ids shifted)
+pub fn disjoint_union(parts: Vec<Vec<Atom>>) -> Vec<Atom> {
+    let mut g: Vec<Atom> = vec![]; 
+    for part in parts { let off = g.len(); for a in part { g.push(Atom { kind: a.kind, bonds: a.bonds.into_iter().map(|b| Bond::new(b.kind, b.tid + off)).collect() }) } }
+    g
+}
+/// several ring-bearing components in one list; the number of closures open at once differs from component to component
+pub fn gen_components(rng: &mut Rng) -> Vec<Atom> {
+    let k = 2 + rng.below(3);
+    let parts: Vec<Vec<Atom>> = (0..k).map(|_| match rng.below(4) { 0 => { let r = 1 + rng.below(2); gen_ladder(rng, r) } 1 => { let r = 2 + rng.below(5); gen_ladder(rng, r) } 2 => { let d = 3 + rng.below(4); gen_hub(rng, d) } _ => gen_wf_graph(rng, 6) }).collect();
+    disjoint_union(parts)
+}
+/// a chain with a directed cycle of one-sided chords: every atom is named as often as it names others, yet k >= 3 half-bonds have no counterpart
+pub fn gen_directed_cycle(rng: &mut Rng) -> Vec<Atom> {
+    let k = 3 + rng.below(3); let gap = 2 + rng.below(2); let n = (k - 1) * gap + 1 + rng.below(3);
+    let mut g: Vec<Atom> = (0..n).map(|_| Atom { kind: AtomKind::Star, bonds: vec![] }).collect();
+    for i in 0..n - 1 { g[i].bonds.push(Bond::new(BondKind::Elided, i + 1)); g[i + 1].bonds.push(Bond::new(BondKind::Elided, i)) }
+    let nodes: Vec<usize> = (0..k).map(|i| i * gap).collect();
+    let forward = rng.chance(1, 2);
+    for i in 0..k { let (a, b) = if forward { (nodes[i], nodes[(i + 1) % k]) } else { (nodes[(i + 1) % k], nodes[i]) };
+        let at = if rng.chance(1, 2) { g[a].bonds.len() } else { rng.below(g[a].bonds.len() + 1) }; g[a].bonds.insert(at, Bond::new(BondKind::Elided, b)) }
+    g
+}
